@@ -106,6 +106,14 @@ pub fn run_loop<M: Machine>(m: &'static M) -> Leave {
                     "complete" => return Leave::Complete(step),
                     "panic" => panic!("{}", SCRIPTED_PANIC),
                     _ => {
+                        match selftest(&step) {
+                            Some(SelfTest::Busy) => loop {
+                                std::hint::spin_loop();
+                                std::thread::sleep(Duration::from_millis(50));
+                            },
+                            Some(SelfTest::Drop) => continue,     // "forget" the reply
+                            None => {}
+                        }
                         if let Some(Leave::Quit) = m.exec(&step) {
                             return Leave::Quit;
                         }
@@ -113,6 +121,34 @@ pub fn run_loop<M: Machine>(m: &'static M) -> Leave {
                 }
             }
         }
+    }
+}
+
+enum SelfTest {
+    Busy,
+    Drop,
+}
+
+/// Fault injection for testing the watchdogs (never set by the checks):
+/// VERIF_SELFTEST=busy-once:N  the N-th executed step hangs forever (does not repeat => noise)
+/// VERIF_SELFTEST=busy-op:OP   every step with that op on thread 2 hangs (reproducible => data)
+/// VERIF_SELFTEST=drop:N       the N-th executed step is not answered once (does not repeat => noise)
+/// VERIF_SELFTEST=drop-op:OP   every step with that op on thread 2 is not answered (engine bug => exit 2)
+fn selftest(step: &Value) -> Option<SelfTest> {
+    static SPEC: std::sync::OnceLock<Option<(String, String)>> = std::sync::OnceLock::new();
+    static COUNT: std::sync::atomic::AtomicU64 = std::sync::atomic::AtomicU64::new(0);
+    let spec = SPEC.get_or_init(|| {
+        std::env::var("VERIF_SELFTEST").ok().and_then(|s| s.split_once(':').map(|(a, b)| (a.to_string(), b.to_string())))
+    });
+    let (kind, arg) = spec.as_ref()?;
+    match kind.as_str() {
+        "busy-op" => (step["op"].as_str() == Some(arg.as_str()) && step["t"] == 2).then_some(SelfTest::Busy),
+        "drop-op" => (step["op"].as_str() == Some(arg.as_str()) && step["t"] == 2).then_some(SelfTest::Drop),
+        "busy-once" | "drop" => {
+            let n = COUNT.fetch_add(1, Ordering::SeqCst) + 1;
+            (Some(n) == arg.parse::<u64>().ok()).then_some(if kind == "drop" { SelfTest::Drop } else { SelfTest::Busy })
+        }
+        _ => None,
     }
 }
 
@@ -152,6 +188,11 @@ pub fn step_timeout() -> Duration {
         std::env::var("VERIF_STEP_TIMEOUT").ok().and_then(|s| s.parse().ok()).unwrap_or(20)
     }))
 }
+
+/// The engine's own bookkeeping got stuck (a reply or a wake-up was lost while the model thread
+/// sits in its wait for a command).  Never a verdict: repeated once; if it repeats it is a bug of
+/// the engine (exit 2 with the program), if not it is noise of the platform.
+pub const ENGINE_STALL: &str = "engine-stall";
 
 pub struct Outcome {
     pub mismatch: Option<Value>,
@@ -194,11 +235,10 @@ pub fn run_case<M: Machine>(
             Ok(v) => v,
             Err(RecvTimeoutError::Timeout) => {
                 if phases[u].load(Ordering::SeqCst) == PHASE_WAITING {
-                    tool_error(&format!(
-                        "engine: model thread {} waits for a command but never answered the {what} at step {at} of {}",
-                        u + 1, json!(steps)));
+                    json!({"stall": format!("model thread {} waits for a command but the answer to the {what} at step {at} never arrived", u + 1)})
+                } else {
+                    json!({"hang": true})
                 }
-                json!({"hang": true})
             }
             Err(RecvTimeoutError::Disconnected) => json!({"tool_error": "model thread died"}),
         }
@@ -216,6 +256,11 @@ pub fn run_case<M: Machine>(
             tool_error(&format!("{e} at step {i} of {}", json!(steps)));
         }
         out.steps_run += 1;
+        if let Some(st) = rep.get("stall") {
+            out.mismatch = Some(json!({"step": i, "what": ENGINE_STALL, "detail": st}));
+            hung[t - 1] = true;
+            break;
+        }
         if rep.get("hang").is_some() {
             out.mismatch = Some(json!({"step": i, "what": "hang: a step of the program never finished in the code under test",
                 "detail": {"thread": t, "limit_s": limit.as_secs()}}));
@@ -228,6 +273,11 @@ pub fn run_case<M: Machine>(
             let o = wait(u, "observation", i);
             if let Some(e) = o.get("tool_error") {
                 tool_error(&format!("{e} (observation of thread {}) at step {i} of {}", u + 1, json!(steps)));
+            }
+            if let Some(st) = o.get("stall") {
+                out.mismatch = Some(json!({"step": i, "what": ENGINE_STALL, "detail": st}));
+                hung[u] = true;
+                break 'steps;
             }
             if o.get("hang").is_some() {
                 out.mismatch = Some(json!({"step": i, "what": "hang: observing the ambient state never finished in the code under test",
@@ -282,7 +332,10 @@ pub fn run_case<M: Machine>(
                 let _ = h.join();
             }
         } else if phases[u].load(Ordering::SeqCst) == PHASE_WAITING {
-            tool_error(&format!("engine: model thread {} still waits for a command after Quit; case {}", u + 1, json!(steps)));
+            if out.mismatch.is_none() {
+                out.mismatch = Some(json!({"step": steps.len().saturating_sub(1), "what": ENGINE_STALL,
+                    "detail": format!("model thread {} still waits for a command after Quit", u + 1)}));
+            }
         } else if out.mismatch.is_none() {
             out.mismatch = Some(json!({"step": steps.len().saturating_sub(1),
                 "what": "hang: leaving the frames still entered at the end of the program never finished in the code under test",
@@ -347,8 +400,9 @@ pub fn take_yield() -> Option<Leave> {
 
 /// Shard ndjson cases over `workers` driver threads; `mk` builds one machine + judge state per
 /// worker and `run(worker state, case number, case) -> Outcome` runs a case.
-pub fn drive<S: Send + 'static>(
+fn drive_shard<S: Send + 'static>(
     path: &str,
+    shard: (usize, usize),
     workers: usize,
     mk: impl Fn(usize) -> S + Send + Sync + 'static,
     run: impl Fn(&mut S, usize, &Value) -> Outcome + Send + Sync + 'static,
@@ -357,7 +411,10 @@ pub fn drive<S: Send + 'static>(
     let file = std::fs::File::open(path).unwrap_or_else(|e| tool_error(&format!("open {path}: {e}")));
     let lines = {
         use std::io::BufRead;
-        std::io::BufReader::with_capacity(1 << 20, file).lines().enumerate()
+        std::io::BufReader::with_capacity(1 << 20, file)
+            .lines()
+            .enumerate()
+            .filter(move |(i, _)| i % shard.1 == shard.0)
     };
     let lines = std::sync::Arc::new(std::sync::Mutex::new(lines));
     // what every driver worker is running right now, for the overall watchdog
@@ -369,7 +426,7 @@ pub fn drive<S: Send + 'static>(
         // Overall watchdog: the harness never outlives VERIF_HARNESS_LIMIT seconds.  Running out
         // of time is a failure of the machinery (exit 2) and says which programs were running.
         let (inflight, finished) = (inflight.clone(), finished.clone());
-        let limit = std::env::var("VERIF_HARNESS_LIMIT").ok().and_then(|s| s.parse::<u64>().ok()).unwrap_or(600);
+        let limit = harness_limit();
         std::thread::spawn(move || {
             let t0 = std::time::Instant::now();
             while t0.elapsed() < Duration::from_secs(limit) {
@@ -391,12 +448,16 @@ pub fn drive<S: Send + 'static>(
         });
     }
     let cpus = allowed_cpus();
+    let stop = Arc::new(std::sync::atomic::AtomicBool::new(false));
+    let confirmed = Arc::new(std::sync::atomic::AtomicUsize::new(0));
+    let flaky = Arc::new(std::sync::atomic::AtomicUsize::new(0));
     let mk = std::sync::Arc::new(mk);
     let run = std::sync::Arc::new(run);
     let mut hs = Vec::new();
     for w in 0..workers.max(1) {
         let (lines, mk, run, inflight) = (lines.clone(), mk.clone(), run.clone(), inflight.clone());
-        let cpu = if cpus.is_empty() { None } else { Some(cpus[w % cpus.len()]) };
+        let (stop, confirmed, flaky) = (stop.clone(), confirmed.clone(), flaky.clone());
+        let cpu = if cpus.is_empty() { None } else { Some(cpus[(shard.0 + w * shard.1) % cpus.len()]) };
         hs.push(std::thread::spawn(move || {
             // A case is strictly sequential (one thread runs at a time): keeping the worker and
             // the model threads it spawns (they inherit the mask) on one core avoids cross-core
@@ -422,8 +483,39 @@ pub fn drive<S: Send + 'static>(
                 // a stored replay names the case number it had (the harness derives the
                 // representation choices the specification does not distinguish from it)
                 let no = case.get("no").and_then(|n| n.as_u64()).map(|n| n as usize).unwrap_or(*no);
+                if stop.load(Ordering::SeqCst) {
+                    break;      // reproducible hangs were found: enough witnesses, do not wait for more
+                }
                 *inflight[w].lock().unwrap() = Some((no, std::time::Instant::now(), line.clone()));
-                let o = run(&mut st, no, &case);
+                let mut o = run(&mut st, no, &case);
+                if is_stall(&o) {
+                    st = mk(w);
+                    let again = run(&mut st, no, &case);
+                    if is_stall(&again) {
+                        tool_error(&format!("engine stalled twice on the same program ({}): case {no}: {}",
+                            again.mismatch.as_ref().map(|m| m["detail"].to_string()).unwrap_or_default(), line));
+                    }
+                    flaky.fetch_add(1, Ordering::SeqCst);
+                    eprintln!("note: case {no}: the engine stalled once and ran normally when repeated (platform noise)");
+                    o = again;
+                }
+                if is_hang(&o) {
+                    // A hang of the code under test is reproducible (the programs are sequential and
+                    // deterministic).  Run the program once more on a fresh machine (the abandoned
+                    // thread may hold pieces of the old one); a hang that does not repeat is noise of
+                    // the platform (counted, never a verdict).
+                    st = mk(w);
+                    let again = run(&mut st, no, &case);
+                    if is_hang(&again) {
+                        if confirmed.fetch_add(1, Ordering::SeqCst) + 1 >= 2 {
+                            stop.store(true, Ordering::SeqCst);
+                        }
+                    } else {
+                        flaky.fetch_add(1, Ordering::SeqCst);
+                        eprintln!("note: case {no} hung once and ran normally when repeated (platform noise)");
+                    }
+                    o = again;
+                }
                 *inflight[w].lock().unwrap() = None;
                 rep.cases += 1;
                 rep.checks += o.steps_run;
@@ -442,6 +534,8 @@ pub fn drive<S: Send + 'static>(
         .map(|h| h.join().unwrap_or_else(|_| tool_error("driver worker panicked")))
         .collect();
     finished.store(true, Ordering::SeqCst);
+    total.extra.insert("flaky_hangs".into(), json!(flaky.load(Ordering::SeqCst)));
+    total.extra.insert("stopped_early".into(), json!(stop.load(Ordering::SeqCst)));
     for r in results {
         total.cases += r.cases;
         total.checks += r.checks;
@@ -456,6 +550,117 @@ pub fn drive<S: Send + 'static>(
 }
 
 /// CPUs this process may run on.
+/// Run all cases of an ndjson file: `procs` forked processes (VERIF_WORKERS), each taking every
+/// procs-th case with one driver thread pinned to one core.
+///
+/// Why processes and pinning (measured, 20 000 two-thread programs): a case is strictly sequential
+/// hand-offs between the driver and its model threads.  On one core that costs ~140 us per case;
+/// spread over cores every hand-off is a cross-CPU wake-up (an IPI, in a VM a VM exit, much worse
+/// when the other vCPUs are idle) and the same work took 8-22 s instead of 2.9 s; and creating the
+/// per-case OS threads from several driver threads of ONE process serialises on the process's
+/// memory-map lock (8 threads: 5.0 s, 2 threads: 2.2 s).  Separate address spaces avoid both.
+pub fn drive<S: Send + 'static>(
+    path: &str,
+    procs: usize,
+    mk: impl Fn(usize) -> S + Send + Sync + 'static,
+    run: impl Fn(&mut S, usize, &Value) -> Outcome + Send + Sync + 'static,
+) -> Report {
+    let procs = procs.max(1);
+    if procs == 1 {
+        return drive_shard(path, (0, 1), 1, mk, run);
+    }
+    let limit = harness_limit();
+    let part = |i: usize| format!("{path}.part{i}.json");
+    let mut pids: Vec<libc::pid_t> = Vec::new();
+    for i in 0..procs {
+        // no threads exist yet in this process: fork is safe
+        let pid = unsafe { libc::fork() };
+        if pid < 0 {
+            for p in &pids {
+                unsafe { libc::kill(*p, libc::SIGKILL) };
+            }
+            tool_error("fork failed");
+        }
+        if pid == 0 {
+            let rep = drive_shard(path, (i, procs), 1, mk, run);
+            rep.write(&part(i));
+            std::process::exit(0);
+        }
+        pids.push(pid);
+    }
+    // wait for the shards, bounded
+    let t0 = std::time::Instant::now();
+    let mut left: Vec<(usize, libc::pid_t)> = pids.iter().cloned().enumerate().collect();
+    let mut failed: Option<String> = None;
+    while !left.is_empty() && failed.is_none() {
+        let mut still = Vec::new();
+        for (i, pid) in left {
+            let mut status: libc::c_int = 0;
+            let r = unsafe { libc::waitpid(pid, &mut status, libc::WNOHANG) };
+            if r == 0 {
+                still.push((i, pid));
+            } else if r < 0 {
+                failed = Some(format!("waitpid for shard {i} failed"));
+            } else if libc::WIFEXITED(status) {
+                if libc::WEXITSTATUS(status) != 0 {
+                    failed = Some(format!("shard {i} failed with exit code {} (its message is above)", libc::WEXITSTATUS(status)));
+                }
+            } else if libc::WIFSIGNALED(status) {
+                failed = Some(format!("shard {i} was killed by signal {} (crash of the process running the code under test; cases {i} mod {procs} of {path})", libc::WTERMSIG(status)));
+            }
+        }
+        left = still;
+        if t0.elapsed() > Duration::from_secs(limit + 15) {
+            failed = Some(format!("shards {:?} did not finish within {} s", left.iter().map(|x| x.0).collect::<Vec<_>>(), limit + 15));
+        }
+        if !left.is_empty() && failed.is_none() {
+            std::thread::sleep(Duration::from_millis(20));
+        }
+    }
+    if let Some(msg) = failed {
+        for (_, pid) in &left {
+            unsafe { libc::kill(*pid, libc::SIGKILL) };
+        }
+        for i in 0..procs {
+            let _ = std::fs::remove_file(part(i));
+        }
+        tool_error(&msg);
+    }
+    let mut total = Report::new();
+    let (mut flaky, mut stopped) = (0u64, false);
+    for i in 0..procs {
+        let text = std::fs::read_to_string(part(i)).unwrap_or_else(|e| tool_error(&format!("shard {i} left no report: {e}")));
+        let v: Value = serde_json::from_str(&text).unwrap_or_else(|e| tool_error(&format!("shard {i} report: {e}")));
+        let _ = std::fs::remove_file(part(i));
+        total.cases += v["cases"].as_u64().unwrap_or(0);
+        total.checks += v["checks"].as_u64().unwrap_or(0);
+        total.total_mismatches += v["total_mismatches"].as_u64().unwrap_or(0);
+        flaky += v["extra"]["flaky_hangs"].as_u64().unwrap_or(0);
+        stopped |= v["extra"]["stopped_early"].as_bool().unwrap_or(false);
+        for m in v["mismatches"].as_array().cloned().unwrap_or_default() {
+            if total.mismatches.len() < total.max_mismatches {
+                total.mismatches.push(m);
+            }
+        }
+    }
+    total.extra.insert("flaky_hangs".into(), json!(flaky));
+    total.extra.insert("stopped_early".into(), json!(stopped));
+    total.extra.insert("processes".into(), json!(procs));
+    total
+}
+
+fn harness_limit() -> u64 {
+    std::env::var("VERIF_HARNESS_LIMIT").ok().and_then(|s| s.parse::<u64>().ok()).unwrap_or(600)
+}
+
+fn is_hang(o: &Outcome) -> bool {
+    o.mismatch.as_ref().and_then(|m| m["what"].as_str()).map_or(false, |w| w.starts_with("hang"))
+}
+
+fn is_stall(o: &Outcome) -> bool {
+    o.mismatch.as_ref().and_then(|m| m["what"].as_str()) == Some(ENGINE_STALL)
+}
+
 fn allowed_cpus() -> Vec<usize> {
     if std::env::var("VERIF_NO_PIN").is_ok() {
         return Vec::new();
@@ -478,5 +683,5 @@ fn pin_to(cpu: usize) {
 }
 
 pub fn workers_from_env() -> usize {
-    std::env::var("VERIF_WORKERS").ok().and_then(|s| s.parse().ok()).unwrap_or(6)
+    std::env::var("VERIF_WORKERS").ok().and_then(|s| s.parse().ok()).unwrap_or(8)
 }
